@@ -38,3 +38,7 @@ Theorem C12_python_module_state_is_lazy_and_complete :
   List.length py_global_inits_complete_before_publish = List.length py_global_writes /\
   py_mutated_containers = [].
 Proof. exact python_globals_are_idempotent_lazy_inits. Qed.
+
+Theorem C12_no_python_api_while_released :
+  forallb (fun e => existsb (String.eqb (snd e)) nogil_allowed) nogil_python_api = true.
+Proof. exact no_python_api_while_released. Qed.
